@@ -427,12 +427,29 @@ func C17(tier rt.Tier) int {
 								{
 									sdb := util.NewMemoryNodeDB()
 									_ = db.Iterate(context.Background(), func(ctx context.Context, key util.Key, node util.Node) error { return sdb.PutNode(key, node) })
+									// a live trie on the damaged store has met the absent nodes (detection, listing, lookups) before the
+									// store is repaired underneath it: "the trie again reads its full content" is about this object too
+									live := util.NewMerklePatriciaTrie(sdb, util.Sequence(tver), root, statecache.NewEmpty())
+									_, _ = live.HasMissingNodes(context.Background())
+									_, _ = live.GetAllMissingNodes()
+									for _, p := range paths {
+										_, _ = live.GetNodeValueRaw(util.Path(p))
+									}
 									before := donor.fingerprint()
 									if err := util.MergeState(context.Background(), donor, sdb); err != nil {
 										violate("mergestate", desc+": MergeState returned "+err.Error(), replay)
 										return
 									}
 									fail := ""
+									if has, err := live.HasMissingNodes(context.Background()); err != nil || has {
+										fail = fmt.Sprintf("the trie object that had met the absent nodes still reports missing nodes after MergeState repaired its store (%v, %v)", has, err)
+									} else if got, err := live.GetAllMissingNodes(); err != nil || len(got) != 0 {
+										fail = fmt.Sprintf("the trie object that had met the absent nodes still lists %d missing nodes after MergeState repaired its store (%v)", len(got), err)
+									} else if f := viewOf(live, mdl, paths); f != "" {
+										fail = "the trie object that had met the absent nodes, after MergeState repaired its store: " + f
+									} else if !bytes.Equal(live.GetRoot(), root) {
+										fail = fmt.Sprintf("the trie object that had met the absent nodes has root %x after the repair, %x before", live.GetRoot(), root)
+									}
 									if after := donor.fingerprint(); after != before {
 										fail = "MergeState changed the donor store's node objects: " + lineDiff(strings.ReplaceAll(before, ";", "\n"), strings.ReplaceAll(after, ";", "\n"))
 									}
